@@ -841,8 +841,10 @@ def continuous_loss(x, distrib):
 	ub = distrib.ppf(1.0 - 1.0e-10)
 
 	# Calculate loss functions.
-	n = distrib.expect(lambda y: max(y - x, 0), lb=x, ub=ub)
-	n_bar = distrib.expect(lambda y: max(x - y, 0), lb=lb, ub=x)
+	# (Clip the integration limits to [lb, ub]: if x is far outside this range, integrating
+	# all the way to x makes the quadrature miss the region where the density is non-zero.)
+	n = distrib.expect(lambda y: max(y - x, 0), lb=max(x, lb), ub=ub) if x < ub else 0.0
+	n_bar = distrib.expect(lambda y: max(x - y, 0), lb=lb, ub=min(x, ub)) if x > lb else 0.0
 
 	# Original version; the new version seems to be more accurate (and maybe
 	# faster).
